@@ -7,6 +7,11 @@
 (*   first/got = absolute index of the first unit returned and how many    *)
 (*   units came back (the raw stream's units carry their own index),       *)
 (*   tell = what tell() answered afterwards.                               *)
+(*   op 5 = n more units arrive at the raw stream (traces with nb = 1: a   *)
+(*   non-blocking raw stream that starts empty, delivers what has arrived  *)
+(*   - possibly fewer units than asked for - and answers None when nothing *)
+(*   is pending; the wrapper must then behave like a seekable stream over  *)
+(*   the units that have arrived so far).                                  *)
 (* Each event is one action of CacheWrap with the logged fields bound.     *)
 (***************************************************************************)
 EXTENDS Naturals, Integers, Sequences, TLC, Json, IOUtils
@@ -15,8 +20,8 @@ Traces == ndJsonDeserialize(IOEnv.TRACE_FILE)
 Min(a, b) == IF a <= b THEN a ELSE b
 Max(a, b) == IF a >= b THEN a ELSE b
 
-VARIABLES tid, l, rawPos, base, cpos, clen, mark
-tvars == <<tid, l, rawPos, base, cpos, clen, mark>>
+VARIABLES tid, l, rawPos, base, cpos, clen, mark, avail
+tvars == <<tid, l, rawPos, base, cpos, clen, mark, avail>>
 
 F(t, j, k) == Traces[t].ev[5 * (j - 1) + k]
 NEv(t) == Len(Traces[t].ev) \div 5
@@ -24,6 +29,7 @@ Reject(t, j, clause) == PrintT(<<"REJECT", Traces[t].id, j, clause>>)
 Chk(t, j, clause, cond) == IF cond THEN TRUE ELSE Reject(t, j, clause)
 
 TraceInit == tid \in 1..Len(Traces) /\ l = 0 /\ rawPos = 0 /\ base = 0 /\ cpos = 0 /\ clen = 0 /\ mark = 0
+             /\ avail = (IF Traces[tid].nb = 1 THEN 0 ELSE Traces[tid].size)
 
 Step ==
   /\ l < NEv(tid)
@@ -31,30 +37,34 @@ Step ==
          op == F(t, j, 1)  n == F(t, j, 2)  first == F(t, j, 3)  got == F(t, j, 4)  tell == F(t, j, 5)
          size == Traces[t].size  buf == Traces[t].buf
          abs == base + cpos
-         want == Min(n, size - abs)
+         want == Min(n, avail - abs)
          fromCache == Min(want, clen - cpos)
      IN CASE op = 1 ->
                /\ Chk(t, j, "ReadLength", got = want)
                /\ Chk(t, j, "ReadBytes", got = 0 \/ first = abs)
                /\ cpos' = cpos + want /\ clen' = Max(clen, cpos + want) /\ rawPos' = rawPos + (want - fromCache)
                /\ Chk(t, j, "Tell", tell = cpos + want)
-               /\ UNCHANGED <<base, mark>>
+               /\ UNCHANGED <<base, mark, avail>>
           [] op = 2 ->
                /\ Chk(t, j, "PeekLength", got = want)
                /\ Chk(t, j, "PeekBytes", got = 0 \/ first = abs)
                /\ clen' = Max(clen, cpos + want) /\ rawPos' = rawPos + (want - fromCache)
                /\ Chk(t, j, "Tell", tell = cpos)
-               /\ UNCHANGED <<base, mark, cpos>>
+               /\ UNCHANGED <<base, mark, cpos, avail>>
           [] op = 3 ->
                /\ cpos' = cpos - n
                /\ Chk(t, j, "Tell", tell = cpos - n)
-               /\ UNCHANGED <<rawPos, base, clen, mark>>
+               /\ UNCHANGED <<rawPos, base, clen, mark, avail>>
           [] op = 4 ->
                /\ IF cpos > buf
                     THEN base' = base + cpos /\ clen' = clen - cpos /\ cpos' = 0 /\ mark' = 0
                          /\ Chk(t, j, "Tell", tell = 0)
                     ELSE mark' = cpos /\ UNCHANGED <<base, clen, cpos>> /\ Chk(t, j, "Tell", tell = cpos)
-               /\ UNCHANGED rawPos
+               /\ UNCHANGED <<rawPos, avail>>
+          [] op = 5 ->
+               /\ avail' = Min(size, avail + n)
+               /\ Chk(t, j, "Tell", tell = cpos)
+               /\ UNCHANGED <<rawPos, base, cpos, clen, mark>>
   /\ l' = l + 1 /\ UNCHANGED tid
 
 TraceSpec == TraceInit /\ [][Step]_tvars
